@@ -479,6 +479,69 @@ func analyse(c *gen.Case, r *ref.Result, storeSlow, loadSlow, prefSlow bool) *an
 			slowReaders = [32]bool{}
 		}
 	}
+	// --- the code behind a defined fault (division by zero, undefined label):
+	// it is never executed architecturally, but the pipeline runs ahead into it
+	// while the faulting instruction waits for an operand — the same situation as
+	// the wrong path of a slow branch
+	if r.Err == ref.ErrDivZero || r.Err == ref.ErrLabel {
+		fin := c.Prog.Ins[r.ErrIdx]
+		slowFault := (storeSlow && sinceStoreMiss) || (loadSlow && sinceLoad)
+		late := slowReaders
+		for _, x := range fin.Reads() {
+			if x != 0 {
+				if tainted[x] {
+					slowFault = true
+				}
+			}
+		}
+		if slowFault {
+			for _, x := range fin.Reads() {
+				if x != 0 {
+					late[x] = true
+				}
+			}
+		}
+		m := ref.NewMachine(&c.Prog, c.Init())
+		for range tr {
+			if _, ok := m.Step(false); !ok {
+				break
+			}
+		}
+		memSize := int32(len(m.Mem))
+		w := m.Clone()
+		w.Pc = int32(4 * (r.ErrIdx + 1))
+		for k := 0; k < shadowDepth; k++ {
+			idx := int(w.Pc / 4)
+			if w.Pc < 0 || idx >= len(c.Prog.Ins) {
+				break
+			}
+			in := c.Prog.Ins[idx]
+			if in.IsMem() {
+				ea := w.Reg[in.Rs1] + in.Imm
+				sz := ref.AccessSize(in.Op)
+				if ea < 0 || ea+sz > memSize || ea%sz != 0 {
+					a.shadowWild = true
+					break
+				}
+				if in.IsStore() {
+					a.shadowStore = true
+					a.shadowStoreSlow = true
+				}
+			}
+			if in.Writes() > 0 && late[in.Writes()] {
+				a.renameOrder = true
+			}
+			if in.IsCondBr() && slowFault {
+				a.shadowBranchSlow = true
+			}
+			if in.Op == "ret" || in.IsJump() {
+				break
+			}
+			if _, ok := w.Step(true); !ok {
+				break
+			}
+		}
+	}
 	// --- wrong paths of taken conditional branches
 	hasTaken := false
 	for _, s := range tr {
